@@ -202,18 +202,15 @@ def compare(ctx, rule, label, cname, out, negative, want, path, stats, concrete=
             ctx.finding(rule, label, 'no-return:' + str(out.value).replace(' ', ''), 'on rounding cell %s the conversion does not return: %s %s at %s'
                         % (cname, out.kind, out.value, out.where), {'function': path})
         else:
-            stats['undecided'] += 1
-        return
+            return 'undecided'
     r = result_int(out.value)
     if r is None:
-        stats['undecided'] += 1
-        return
+        return 'undecided'
     if negative:
         if r.negof is None and r.is_const():
             got = sym_msb_first(AInt.const(r.bits, False, -r.uval()))
         elif r.negof is None:
-            stats['undecided'] += 1
-            return
+            return 'undecided'
         else:
             got = sym_msb_first(r.negof)
     else:
@@ -221,8 +218,7 @@ def compare(ctx, rule, label, cname, out, negative, want, path, stats, concrete=
     if len(got) > len(want):
         want = [0] * (len(got) - len(want)) + list(want)
     if any(b is None for b in got):
-        stats['undecided'] += 1
-        return
+        return 'undecided'
     if got != want:
         diff = [i for i, (g, w) in enumerate(zip(got, want)) if g != w] or ['width']
         wit = ''
@@ -236,9 +232,8 @@ def compare(ctx, rule, label, cname, out, negative, want, path, stats, concrete=
                 if r2 is not None and r2.is_const():
                     if r2.uval() == cexp & mask(r2.bits):
                         # the concrete run agrees with the specification: the symbolic comparison is not trusted, no alarm
-                        stats['undecided'] += 1
                         ctx.undecided.setdefault('rounding_inconsistent', []).append('%s %s' % (label, cname))
-                        return
+                        return 'undecided'
                     wit = '; e.g. input %s gives %#x, the correctly rounded result is %#x' % (cdesc, r2.uval(), cexp & mask(r2.bits))
                 elif o2.kind != 'return':
                     wit = '; e.g. input %s: %s %s' % (cdesc, o2.kind, o2.value)
@@ -250,13 +245,57 @@ def compare(ctx, rule, label, cname, out, negative, want, path, stats, concrete=
         f.details['cells'].append(cname)
         if len(f.details['cells']) > 1:
             f.msg = f.msg.split(' [and ')[0] + ' [and %d more cells, e.g. %s]' % (len(f.details['cells']) - 1, f.details['cells'][1])
-    else:
-        stats['proved'] += 1
-        ctx.sample({'rule': rule, 'fn': label, 'cell': cname, 'result': 'identical to the correctly rounded encoding'}, limit=8)
+        return 'finding'
+    ctx.sample({'rule': rule, 'fn': label, 'cell': cname, 'result': 'identical to the correctly rounded encoding'}, limit=8)
+    return 'proved'
 
 
 def fmt_bits(bits):
     return ' '.join(str(b) if not is_lit(b) else (('m%d' if not b[3] else '~m%d') % b[2]) for b in bits).replace('0 0 0 0', '0000').replace('1 1 1 1', '1111')
+
+
+def decide(ctx, I, rule, label, cname, path, mkargs, gargs, negative, want, concrete, stats, sub_cells=None):
+    """decide one rounding cell: determinate run; if a branch is undecided, every path of the may-mode exploration must agree with the
+    specification; if that is not complete, the cell is partitioned once more (sub_cells)"""
+    stats['cells'] += 1
+    try:
+        out = I.run(path, mkargs(), gargs)
+        outs = [out]
+        if out.kind == 'undecided':
+            outs, complete = I.explore(path, mkargs, gargs, max_paths=12)
+            outs = [o for o in outs if o.kind != 'infeasible']
+            if not complete or any(o.kind == 'undecided' for o in outs) or not outs:
+                outs = None
+    except Exception as ex:
+        stats['unsupported'] += 1
+        ctx.undecided.setdefault('rounding_unsupported', []).append('%s %s: %s' % (label, cname, str(ex)[:80]))
+        return
+    if outs is None:
+        if sub_cells is None:
+            stats['undecided'] += 1
+            return
+        stats['cells'] -= 1
+        for sname, mk2, want2, conc2 in sub_cells():
+            decide(ctx, I, rule, label, cname + ' ' + sname, path, mk2, gargs, negative, want2, conc2, stats, None)
+        return
+    n_inc = len(ctx.undecided.get('rounding_inconsistent', []))
+    res = [compare(ctx, rule, label, cname, o, negative, want, path, stats, concrete) for o in outs]
+    if 'finding' in res:
+        stats['refuted'] += 1
+    elif all(r_ == 'proved' for r_ in res):
+        stats['proved'] += 1
+        if len(res) > 1:
+            stats['proved_by_path_enumeration'] += 1
+    elif sub_cells is not None and len(outs) > 1:
+        # a path of the enumeration could not be compared (it holds on part of the cell only): partition the cell instead
+        del ctx.undecided.get('rounding_inconsistent', [])[n_inc:]
+        if not ctx.undecided.get('rounding_inconsistent', True):
+            del ctx.undecided['rounding_inconsistent']
+        stats['cells'] -= 1
+        for sname, mk2, want2, conc2 in sub_cells():
+            decide(ctx, I, rule, label, cname + ' ' + sname, path, mk2, gargs, negative, want2, conc2, stats, None)
+    else:
+        stats['undecided'] += 1
 
 
 def refine_cells(arg_bits, want):
@@ -286,28 +325,76 @@ def check_float_to_posit(ctx, prog, rule, label, path, fmt, pty, full, gargs=Non
             return [AFloat(fmt.bits, AInt.const(fmt.bits, False, u))], '%#x (%s)' % (u, float(v)), P.encode(v), lambda a: I.run(path, a, gargs or {})
         return concrete
     for cname, negative, arg, want in float_cells(fmt, pty, full, rng):
-        stats['cells'] += 1
-        try:
-            out = I.run(path, [arg], gargs or {})
-        except Exception as ex:
-            stats['unsupported'] += 1
-            ctx.undecided.setdefault('rounding_unsupported', []).append('%s %s: %s' % (label, cname, str(ex)[:80]))
-            continue
-        if out.kind == 'undecided':
-            # a guard threshold lies inside the cell (e.g. `== 1.0`): partition it once more and decide each part
-            stats['cells'] -= 1
-            bits = arg.pat.symbits()
+        bits = arg.pat.symbits()
+
+        def subs(bits=bits, want=want):
             for asg, sub in refine_cells(bits, want):
-                stats['cells'] += 1
-                pat = AInt(arg.pat.bits, False, None, None, 0, 0, sym=subst(bits, asg))
-                try:
-                    o2 = I.run(path, [AFloat(arg.bits, pat)], gargs or {})
-                except Exception as ex:
-                    stats['unsupported'] += 1
-                    continue
-                compare(ctx, rule, label, cname + ' ' + sub, o2, negative, subst(want, asg), path, stats, mkc(subst(bits, asg)))
-            continue
-        compare(ctx, rule, label, cname, out, negative, want, path, stats, mkc(arg.pat.symbits()))
+                b2 = subst(bits, asg)
+                yield sub, (lambda b2=b2: [AFloat(fmt.bits, AInt(fmt.bits, False, None, None, 0, 0, sym=list(b2)))]), subst(want, asg), mkc(b2)
+        decide(ctx, I, rule, label, cname, path, (lambda bits=bits: [AFloat(fmt.bits, AInt(fmt.bits, False, None, None, 0, 0, sym=list(bits)))]),
+               gargs or {}, negative, want, mkc(bits), stats, subs)
     for k, v in stats.items():
         ctx.count('rounding_%s' % k, v)
+    return stats
+
+
+def posit_source_cells(src, full, dst_es, nk, clamp=True):
+    """rounding cells of a source posit format against a target with nk kept bits"""
+    from rules_routing import regime_cells
+    for negative in (False, True):
+        for k, e, fl, known in regime_cells(src.bits, src.es):
+            scale = k * (1 << src.es) + e
+            lits = [lit(fl - 1 - i) for i in range(fl)]
+            B = encoding_string(dst_es, scale, lits)
+            for asg, want, cname in rounding_cases(B, nk, full):
+                if want is None:
+                    continue
+                bits = [0] + list(known) + subst(lits, asg)      # msb first
+                yield ('%s k=%d e=%d %s' % ('-' if negative else '+', k, e, cname), negative, scale, bits, asg, clamp_const(want, nk) if clamp else want)
+
+
+def posit_input(src, bits_msb_first, negative, tykey=None):
+    y = AInt(src.bits, False, None, None, 0, 0, sym=list(reversed(bits_msb_first)))
+    ys = aval.cast_int(y, src.bits, True)
+    if negative:
+        ys, _ = aval.neg(ys)
+    return AAgg(tykey or src.tykey, [ys])
+
+
+def check_posit_to_posit(ctx, prog, rule, label, path, src, dst, full, gargs=None, src_tykey=None, seed=1):
+    import collections
+    I = Interp(prog, max_steps=200000)
+    stats = collections.Counter()
+    rng = random.Random(seed)
+    PS, PD = src.posit, dst.posit
+    nk = dst.bits - 1
+
+    def mkc(bits, negative):
+        def concrete(asg):
+            u = 0
+            for b in bits:
+                u = (u << 1) | (asg.get(b[2], 0) if is_lit(b) else b)
+            if negative:
+                u = (-u) & mask(src.bits)
+            v = PS.decode(u)
+            sv = u - (1 << src.bits) if u >> (src.bits - 1) else u
+            return [AAgg(src_tykey or src.tykey, [AInt.const(src.bits, True, sv)])], '%#x (%s)' % (u, float(v)), PD.encode(v), lambda a: I.run(path, a, gargs or {})
+        return concrete
+    for cname, negative, scale, bits, asg, want in posit_source_cells(src, full, dst.es, nk):
+        # oracle self-check on one random completion
+        fa = {}
+        u = 0
+        for b in bits:
+            if is_lit(b):
+                fa[b[2]] = rng.getrandbits(1)
+            u = (u << 1) | (fa[b[2]] if is_lit(b) else b)
+        assert PD.encode(PS.decode(u)) == instantiate(want, fa), ('oracle mismatch', label, cname)
+        def subs(bits=bits, want=want, negative=negative):
+            for a2, sub in refine_cells(list(reversed(bits)), want):
+                b2 = subst(bits, a2)
+                yield sub, (lambda b2=b2: [posit_input(src, b2, negative, src_tykey)]), [0] + subst(want, a2), mkc(b2, negative)
+        decide(ctx, I, rule, label, cname, path, (lambda bits=bits, negative=negative: [posit_input(src, bits, negative, src_tykey)]),
+               gargs or {}, negative, [0] + want, mkc(bits, negative), stats, subs)
+    for k_, v in stats.items():
+        ctx.count('rounding_%s' % k_, v)
     return stats
